@@ -10,7 +10,7 @@ out = ['import Gemato.Extracted', '/-', f'  Bridge obligations: {doc}', '  The r
 for m in re.finditer(r'^def (\w+) : (.*?) := (.*)$', src, re.M):
     nm, ty, val = m.groups()
     if any(nm.startswith(p) for p in prefixes):
-        out.append(f'theorem snap_{nm} : Extracted.{nm} = ({val} : {ty}) := by decide' + (' +kernel' if len(val) > 3000 else ''))
+        out.append(f'theorem snap_{nm} : Extracted.{nm} = ({val} : {ty}) := by decide' + (' +kernel' if len(val) > 1200 else ''))
         out.append('')
 out.append('end Gemato.Bridge')
 open(os.path.join(here, f'lean/Gemato/Bridge/{name}.lean'), 'w').write('\n'.join(out) + '\n')
